@@ -49,7 +49,15 @@ pub struct Case {
     pub workers: u8,
     /// order in which the clients act after the signal
     pub order: Vec<u16>,
+    /// clients that logged in, ran a statement and dropped their socket without Terminate before the signal
+    #[serde(default)]
+    pub gone_before: u8,
+    /// the signal arrives only after the pooler has been up for longer than shutdown_timeout (then 2.5 s)
+    #[serde(default)]
+    pub late_signal: bool,
 }
+
+const LATE_TIMEOUT_MS: u32 = 2500;
 
 pub struct WirePart;
 
@@ -65,7 +73,7 @@ impl Part for WirePart {
         true
     }
     fn rule(&self) -> String {
-        "populations of 1..6 clients in generated states at signal time {idle (fresh or used), inside a transaction, statement held at the backend, extended batch without Sync, mid-authentication, session-mode owner, admin}, trigger SIGINT / admin SHUTDOWN / SIGTERM, shutdown_timeout 400 ms or 10 s, optionally one transaction that never ends; after the signal has been observed the clients act in a generated order and new admin / non-admin logins are attempted. Oracle: idle transaction-mode clients get the administrator-command error and a close; open work (transaction, held statement, unsynced batch) completes with the client's own rows and the client is disconnected afterwards; a client that was mid-authentication is refused or disconnected right after start-up; new non-admin logins are refused, admin logins accepted; the process exits with status 0 within 2 s of the last client leaving (or shutdown_timeout + 2 s when one never leaves); SIGTERM exits within 2 s regardless. Non-trivial = at least one client with open work at signal time".into()
+        "populations of 1..6 clients in generated states at signal time {idle (fresh or used), inside a transaction, statement held at the backend, extended batch without Sync, mid-authentication, session-mode owner, admin}, trigger SIGINT / admin SHUTDOWN / SIGTERM, shutdown_timeout 400 ms or 10 s, optionally one transaction that never ends, optionally 1..2 clients that dropped their socket before the signal, and in 8% of the cases a signal that arrives after an uptime longer than shutdown_timeout (2.5 s) with a transaction open; after the signal has been observed the clients act in a generated order and new admin / non-admin logins are attempted. Oracle: idle transaction-mode clients get the administrator-command error and a close; open work (transaction, held statement, unsynced batch) completes with the client's own rows and the client is disconnected afterwards; a client that was mid-authentication is refused or disconnected right after start-up; new non-admin logins are refused, admin logins accepted; the process exits with status 0 within 2 s of the last client leaving (or shutdown_timeout + 2 s when one never leaves); SIGTERM exits within 2 s regardless. Non-trivial = at least one client with open work at signal time".into()
     }
     fn cases(&self, tier: Tier) -> u64 {
         tier.pick(600, 8_000)
@@ -88,17 +96,24 @@ impl Part for WirePart {
             prop::bool::weighted(0.2),
             prop_oneof![Just(1u8), Just(2u8), Just(4u8)],
             prop::collection::vec(any::<u16>(), 8),
+            prop_oneof![3 => Just(0u8), 1 => 1u8..3],
+            prop::bool::weighted(0.08),
         )
-            .prop_map(|(states, trigger, _t, one_never_leaves, workers, order)| {
+            .prop_map(|(states, trigger, _t, one_never_leaves, workers, order, gone_before, late_signal)| {
                 // the short shutdown_timeout is only used for the "one transaction never ends" class, where
                 // that transaction is the only open work (otherwise the timeout could legitimately cut
                 // other clients off while the harness is still driving them)
                 if one_never_leaves && trigger != Trigger::Sigterm {
                     let mut st: Vec<State> = states.into_iter().map(|s| if matches!(s, State::Idle | State::IdleUsed | State::Admin) { s } else { State::Idle }).collect();
                     st.push(State::InTxn);
-                    Case { states: st, trigger, shutdown_timeout_ms: 400, one_never_leaves: true, workers, order }
+                    Case { states: st, trigger, shutdown_timeout_ms: 400, one_never_leaves: true, workers, order, gone_before, late_signal: false }
+                } else if late_signal && trigger != Trigger::Sigterm {
+                    // few clients, one of them inside a transaction: the grace period must start at the signal
+                    let mut st: Vec<State> = states.into_iter().take(2).collect();
+                    st.push(State::InTxn);
+                    Case { states: st, trigger, shutdown_timeout_ms: LATE_TIMEOUT_MS, one_never_leaves: false, workers, order, gone_before, late_signal: true }
                 } else {
-                    Case { states, trigger, shutdown_timeout_ms: 10_000, one_never_leaves: false, workers, order }
+                    Case { states, trigger, shutdown_timeout_ms: 10_000, one_never_leaves: false, workers, order, gone_before, late_signal: false }
                 }
             })
             .boxed()
@@ -236,6 +251,26 @@ async fn run_case(c: &Case, ctx: &mut WorkerCtx) -> Outcome {
     }
     o.label(&format!("trigger:{:?}", c.trigger));
 
+    // ---- clients that came and went abruptly before the signal
+    for k in 0..c.gone_before {
+        if let Ok(mut g) = env.client(50 + k as u32, "u", "db", "pw", &[]).await {
+            let _ = own_select(&mut g, t0).await;
+            g.close();
+        }
+        o.label("client_dropped_before_signal");
+    }
+    if c.gone_before > 0 {
+        tokio::time::sleep(Duration::from_millis(40)).await;
+    }
+    if c.late_signal {
+        // uptime beyond shutdown_timeout
+        let up = t0.elapsed();
+        let want = Duration::from_millis(LATE_TIMEOUT_MS as u64 + 250);
+        if up < want {
+            tokio::time::sleep(want - up).await;
+        }
+        o.label("signal_after_uptime_longer_than_shutdown_timeout");
+    }
     // ---- trigger
     let t_signal = Instant::now();
     match c.trigger {
@@ -273,6 +308,13 @@ async fn run_case(c: &Case, ctx: &mut WorkerCtx) -> Outcome {
 
     macro_rules! done {
         ($sig:expr, $d:expr) => {{
+            if c.late_signal && t_signal.elapsed() > Duration::from_millis(LATE_TIMEOUT_MS as u64 * 6 / 10) {
+                // the (short) grace period of this class may legitimately have run out while the harness was still acting
+                o.inconclusive = Some(format!("late-signal class overran its grace period: {}", $d));
+                env.shared.release_all();
+                env.finish().await;
+                return o;
+            }
             o.fail($sig, format!("{}; case {:?}; pgcat stderr: {}", $d, c, env.pg.stderr_tail(30000).lines().filter(|l| !l.contains("AddressStats") && !l.contains("pgcat::config") && !l.contains("Pool reaper")).collect::<Vec<_>>().join("\n")));
             env.shared.release_all();
             env.finish().await;
